@@ -767,7 +767,19 @@ impl<'a> G<'a> {
                 let s = self.num16(v);
                 self.ins(&format!("mov bp, {}", s), "plain");
             }
-            let cx = if edges && self.r.chance(30) { *self.r.pick(&[0u16, 1, 16, 17, 40]) } else { self.r.below(14) as u16 };
+            let mut cx = if edges && self.r.chance(30) { *self.r.pick(&[0u16, 1, 16, 17, 40]) } else { self.r.below(14) as u16 };
+            if edges && !self.cx_busy && self.r.chance(8) {
+                // a long string with a line end near its start: more than a buffer-full follows the
+                // last line end (what a line-buffered stdout takes in one go is less than that)
+                let v = 0x100 + self.r.below(0x200) as u16;
+                self.set_seg("ds", 0);
+                self.set_seg("es", 0);
+                let (sv, sn) = (self.num16(v), self.num16(v + 2));
+                self.ins(&format!("mov byte [{}], 10", sn), "plain");
+                self.ins(&format!("mov bp, {}", sv), "plain");
+                cx = *self.r.pick(&[1100u16, 1500, 2100]);
+                self.tag("int10_13_long_with_newline");
+            }
             let dl = if edges && self.r.chance(30) { *self.r.pick(&[0u16, 1, 79, 255]) } else { self.r.below(6) as u16 };
             let (scx, sdl) = (self.num16(cx), self.num16(dl));
             if !self.cx_busy {
